@@ -61,3 +61,20 @@ Theorem C17_other_epoch : forall (F : list N -> list N) (r e e' : bytes),
   derive_ske_key F r e = derive_ske_key F r e' ->
   (r, e) = (r, e') \/ TruncatedDigestCollision F Params.lbl_star_derive_ske_key Params.star_key_len.
 Proof. intros F r e e'. exact (key_injective F r e r e'). Qed.
+
+(* fewer distinct shares than the threshold recorded in the first share, however many repeats pad the list:
+   the grouping call returns nothing (and likewise for a threshold of 0) *)
+Theorem C17_group_too_few : forall (F : list N -> list N) (ser epoch : bytes) (s : ashare) (rest : list ashare),
+  decode_chunks (split_nl [] ser) = Ok (s :: rest) ->
+  (N.of_nat (length (dedup [] (map aS (s :: rest)))) < aA s)%N ->
+  group_shares F ser epoch = Ok None.
+Proof.
+  intros F ser epoch s rest Hd Hn. rewrite (group_shares_spec F ser epoch (s :: rest) Hd).
+  unfold share_recover. rewrite (arecover_too_few F s rest Hn). reflexivity.
+Qed.
+Theorem C17_group_zero_threshold : forall (F : list N -> list N) (ser epoch : bytes) (s : ashare) (rest : list ashare),
+  decode_chunks (split_nl [] ser) = Ok (s :: rest) -> aA s = 0%N -> group_shares F ser epoch = Ok None.
+Proof.
+  intros F ser epoch s rest Hd Hz. rewrite (group_shares_spec F ser epoch (s :: rest) Hd).
+  unfold share_recover. rewrite (arecover_zero_threshold F s rest Hz). reflexivity.
+Qed.
